@@ -61,6 +61,8 @@ func main() {
 		os.Exit(cmdVerify(os.Args[2:]))
 	case "dump":
 		os.Exit(cmdDump(os.Args[2:]))
+	case "replay":
+		os.Exit(cmdReplay(os.Args[2:]))
 	case "ssa":
 		os.Exit(cmdSSA(os.Args[2:]))
 	default:
